@@ -86,6 +86,7 @@ def run_proof_check(prop, contract_modules, source_modules, *, level='proof', cl
         'instances_discharged': sum(o['unsat'] for o in obs.values()),
         'solver_time_s': round(sum(o['time_s'] for o in obs.values()), 2),
         'timing': pr['timing'], 'canaries': pr['canaries'], 'engine_crosscheck': pr['crosscheck'],
+        'native_sampling_of_contracts': pr.get('native_sampling', []),
         'diagnostics': pr['diagnostics'], 'extraction_dropped': pr['dropped'],
         'samples': [o['id'] for o in table[:8]],
     }
@@ -149,6 +150,7 @@ def proof_subobligations(prop, contract_modules, source_modules, classify=None):
             'instances_discharged': sum(o['unsat'] for o in obs.values()),
             'solver_time_s': round(sum(o['time_s'] for o in obs.values()), 2),
             'timing': pr['timing'], 'canaries': pr['canaries'], 'engine_crosscheck': pr['crosscheck'],
+            'native_sampling_of_contracts': pr.get('native_sampling', []),
             'diagnostics': pr['diagnostics'],
             'checker': "pyvc: VCs generated from the AST of the real source under /repo on every run; z3 5.1.0, cvc5 for unknowns",
         }}
